@@ -237,3 +237,282 @@ pub fn run_many(seed: u64, runs: u64, budget_ms: u64, small: bool, shard: &mut S
         i += 1;
     }
 }
+
+// ---------------------------------------------------------------------------------------------
+// mq-tight, mode "last-receiver": two long-lived worker threads are released together, one makes
+// the last receiver leave, the other one does something that runs the memory manager (drops a
+// sender clone, drops another stream, clones a sender); before that the retire list was filled to
+// a seeded level, so that reclamation cycles start / complete inside the window. Afterwards no
+// receiver exists and the surviving sender must be refused with Disconnected (C13); a stream that
+// was left must not hold the sender back (C11). Plain u64 payloads and no per-call bookkeeping:
+// tens of thousands of trials per second, the windows in question are a few instructions wide.
+
+type Job = Box<dyn FnOnce() + Send>;
+
+struct Worker {
+    job: std::sync::Mutex<Option<Job>>,
+    /// 0 idle, 1 armed, 2 ready (waiting for go), 3 done
+    state: std::sync::atomic::AtomicU32,
+    quit: AtomicBool,
+}
+
+fn worker_loop(w: Arc<Worker>, go: Arc<AtomicU64>, tid: u32) {
+    hooks::thread_begin(tid, crate::conc::ROLE_CONSUMER, tid as u64, Policy::None, &[]);
+    hist::set_enabled(false);
+    let mut idle = 0u32;
+    loop {
+        if w.quit.load(SeqCst) {
+            break;
+        }
+        if w.state.load(SeqCst) != 1 {
+            idle += 1;
+            if idle > 2000 {
+                std::thread::yield_now();
+            } else {
+                std::hint::spin_loop();
+            }
+            continue;
+        }
+        idle = 0;
+        let job = w.job.lock().unwrap().take();
+        let g = go.load(SeqCst);
+        w.state.store(2, SeqCst);
+        let mut n = 0u64;
+        while go.load(SeqCst) == g {
+            n += 1;
+            if cfg!(miri) || n > 200_000 {
+                std::thread::yield_now();
+            } else {
+                std::hint::spin_loop();
+            }
+        }
+        if let Some(j) = job {
+            j();
+        }
+        hooks::flush_hits();
+        w.state.store(3, SeqCst);
+    }
+    hooks::thread_end();
+}
+
+#[inline(never)]
+fn skew(n: u64) {
+    for _ in 0..n {
+        std::hint::spin_loop();
+    }
+}
+
+fn mm_hits() -> u64 {
+    hooks::SITE_HITS[site::MM_DEALLOC as usize].load(SeqCst) + hooks::SITE_HITS[site::MM_EPOCH_BUMP as usize].load(SeqCst)
+}
+
+pub fn run_last_receiver(seed: u64, runs: u64, budget_ms: u64, small: bool, shard: &mut Shard) {
+    let t0 = Instant::now();
+    let mut rng = Rng::new(seed);
+    hist::set_enabled(false);
+    payload::set_pod_mode(false);
+    hooks::thread_begin(0, crate::conc::ROLE_MAIN, seed, Policy::None, &[]);
+    let go = Arc::new(AtomicU64::new(0));
+    let workers: Vec<Arc<Worker>> = (0..2)
+        .map(|_| {
+            Arc::new(Worker {
+                job: std::sync::Mutex::new(None),
+                state: std::sync::atomic::AtomicU32::new(0),
+                quit: AtomicBool::new(false),
+            })
+        })
+        .collect();
+    let joins: Vec<_> = workers
+        .iter()
+        .enumerate()
+        .map(|(i, w)| {
+            let (w, go) = (w.clone(), go.clone());
+            std::thread::spawn(move || worker_loop(w, go, 1 + i as u32))
+        })
+        .collect();
+    let mut trials = 0u64;
+    let mut in_window = 0u64;
+    let mut refused = 0u64;
+    let per_run: u64 = if small { 2 } else { 2000 };
+    let mut run = 0;
+    'outer: while run < runs {
+        if budget_ms != 0 && t0.elapsed().as_millis() as u64 > budget_ms {
+            break;
+        }
+        let bro = rng.chance(2, 3);
+        let cap = *rng.pick(&[1u64, 2, 4, 8]);
+        let side = rng.below(4);
+        let leave_by_unsub = rng.chance(1, 2);
+        let mut sig = Hasher64::new();
+        sig.add_str(&format!("last-receiver{}{}{}{}", bro, cap, side, leave_by_unsub));
+        let mut window_here = false;
+        for _ in 0..per_run {
+            // retire-list level before the window: 0..8 stream add/drop rounds (about 3 retired
+            // objects each; more than 20 start a cycle), then every live handle operates once so that
+            // the cycle can complete on the next free()
+            let rounds = rng.below(9);
+            let refresh = rng.chance(3, 4);
+            let (d0, d1) = (rng.below(120), rng.below(120));
+            let mm0 = mm_hits();
+            macro_rules! trial {
+                ($tx:expr, $rx:expr, $stream:expr) => {{
+                    let tx = $tx;
+                    let rx = $rx;
+                    let stream = $stream;
+                    for _ in 0..rounds {
+                        drop(stream(&rx, &tx));
+                    }
+                    let tx2 = tx.clone();
+                    let other = if side == 1 { stream(&rx, &tx) } else { None };
+                    if refresh {
+                        let _ = tx.try_send(1);
+                        let _ = tx2.try_send(2);
+                        let _ = rx.try_recv();
+                        let _ = rx.try_recv();
+                        if let Some(o) = other.as_ref() {
+                            let _ = o.try_recv();
+                            let _ = o.try_recv();
+                        }
+                    }
+                    // fill the ring: the stream that leaves is what refuses the sender
+                    let mut filled = 0;
+                    while tx.try_send(7).is_ok() {
+                        filled += 1;
+                        if filled > 64 {
+                            break;
+                        }
+                    }
+                    let a: Job = match side {
+                        0 => Box::new(move || {
+                            skew(d0);
+                            drop(tx2);
+                        }),
+                        1 => {
+                            let o = other;
+                            Box::new(move || {
+                                skew(d0);
+                                drop(tx2);
+                                drop(o);
+                            })
+                        }
+                        2 => Box::new(move || {
+                            skew(d0);
+                            let c = tx2.clone();
+                            drop(tx2);
+                            drop(c);
+                        }),
+                        _ => Box::new(move || {
+                            skew(d0);
+                            let _ = tx2.try_send(9);
+                            drop(tx2);
+                        }),
+                    };
+                    let b: Job = Box::new(move || {
+                        skew(d1);
+                        if leave_by_unsub {
+                            rx.unsubscribe();
+                        } else {
+                            drop(rx);
+                        }
+                    });
+                    *workers[0].job.lock().unwrap() = Some(a);
+                    *workers[1].job.lock().unwrap() = Some(b);
+                    workers[0].state.store(1, SeqCst);
+                    workers[1].state.store(1, SeqCst);
+                    let mut n = 0u64;
+                    while workers[0].state.load(SeqCst) != 2 || workers[1].state.load(SeqCst) != 2 {
+                        n += 1;
+                        if cfg!(miri) || n > 100_000 {
+                            std::thread::yield_now();
+                        }
+                    }
+                    go.fetch_add(1, SeqCst);
+                    n = 0;
+                    while workers[0].state.load(SeqCst) != 3 || workers[1].state.load(SeqCst) != 3 {
+                        n += 1;
+                        if cfg!(miri) || n > 100_000 {
+                            std::thread::yield_now();
+                        }
+                    }
+                    workers[0].state.store(0, SeqCst);
+                    workers[1].state.store(0, SeqCst);
+                    // no receiver handle exists any more
+                    let r = match tx.try_send(11) {
+                        Err(std::sync::mpsc::TrySendError::Disconnected(_)) => "Disconnected",
+                        Err(std::sync::mpsc::TrySendError::Full(_)) => "Full",
+                        Ok(()) => "Ok",
+                    };
+                    drop(tx);
+                    r
+                }};
+            }
+            let r = if bro {
+                let (tx, rx) = mq::broadcast_queue_with::<u64, _>(cap, mq::wait::BusyWait::new());
+                trial!(tx, rx, |rx: &mq::BroadcastReceiver<u64>, _tx: &mq::BroadcastSender<u64>| Some(rx.add_stream()))
+            } else {
+                // no add_stream on the plain mpmc receiver: three sender clones retire as much
+                let (tx, rx) = mq::mpmc_queue_with::<u64, _>(cap, mq::wait::BusyWait::new());
+                trial!(tx, rx, |_rx: &mq::MPMCReceiver<u64>, tx: &mq::MPMCSender<u64>| -> Option<mq::MPMCReceiver<u64>> {
+                    for _ in 0..3 {
+                        drop(tx.clone());
+                    }
+                    None
+                })
+            };
+            trials += 1;
+            if mm_hits() != mm0 {
+                in_window += 1;
+                window_here = true;
+            }
+            if r == "Disconnected" {
+                refused += 1;
+            } else {
+                violation(
+                    "C13,C11",
+                    "no-receiver-send",
+                    format!("no-receiver-send:after-racing-last-receiver:returns-{}", r),
+                    format!(
+                        "the last receiver left ({}) while another thread {} ; afterwards no receiver handle exists, yet try_send returned {} instead of Disconnected ({} cap={} stream add/drop rounds before={} handles operated before={} skew={}/{})",
+                        if leave_by_unsub { "unsubscribe" } else { "drop" },
+                        ["dropped a sender clone", "dropped a sender clone and the only other stream", "cloned and dropped senders", "sent through and dropped a sender clone"][side as usize],
+                        r,
+                        if bro { "broadcast" } else { "mpmc" },
+                        cap,
+                        rounds,
+                        refresh,
+                        d0,
+                        d1
+                    ),
+                );
+                let vs = payload::take_violations();
+                let replay = J::obj()
+                    .set("engine", J::s("tight-last-receiver"))
+                    .set("cfg", J::s(format!("{} cap={} side={} unsub={} rounds={} refresh={} skew={}/{}", if bro { "broadcast" } else { "mpmc" }, cap, side, leave_by_unsub, rounds, refresh, d0, d1)));
+                shard.add_violations(vs, &replay);
+                if shard.violations.len() >= 4 {
+                    break 'outer;
+                }
+            }
+            if budget_ms != 0 && trials % 256 == 0 && t0.elapsed().as_millis() as u64 > budget_ms {
+                break;
+            }
+        }
+        shard.evaluations += 1;
+        shard.distinct.insert(sig.get());
+        if window_here {
+            shard.nontrivial.insert(sig.get());
+        }
+        run += 1;
+    }
+    for w in &workers {
+        w.quit.store(true, SeqCst);
+    }
+    for j in joins {
+        let _ = j.join();
+    }
+    hooks::thread_end();
+    hist::set_enabled(true);
+    shard.stat("trials", trials);
+    shard.stat("trials_in_which_a_reclamation_cycle_started_or_completed_inside_the_window", in_window);
+    shard.stat("trials_refused_with_Disconnected", refused);
+}
